@@ -55,8 +55,8 @@ def function_stage(ck, n, n_malformed):
                 continue
             ck.count("wwriter_" + w[0] + (":" + w[1].split(":")[0] if w[0] != "ok" else ""))
             if w[0] == "ok":
-                reqs += ["wwrite " + w[1] + " " + w[2], "wspec " + w[1] + " " + w[2]]
-                owners += [(c, "write"), (c, "spec")]
+                reqs += ["wwrite " + w[1] + " " + w[2], "wspec " + w[1] + " " + w[2], "wloop " + w[1]]
+                owners += [(c, "write"), (c, "spec"), (c, "loop")]
                 if not c["perturbed"]:
                     from ethosu.vela import tflite_writer as tw
 
@@ -98,6 +98,13 @@ def function_stage(ck, n, n_malformed):
             else:
                 report(side, f"model of the TFLite {side} disagrees with the code: {a[:200]} (case {c['idx']}{' malformed' if c['malformed'] else ''}); "
                        f"the Spec accepts the real output", rep, False)
+        # model only: writing what the reader model makes of the model's file gives the same file (the unproved assembly of
+        # read_write_roundtrip); `err:read:*` = the description is outside the reader's domain (e.g. data / shape sizes differ)
+        if "loop" in res:
+            a = res["loop"][0]
+            if a.startswith("differ") or a.startswith("err:rewrite"):
+                report("loop", f"read_write_roundtrip fails on the models: write (read (write d)) is not write d for a generated description: "
+                       f"{a[:200]} (case {c['idx']})", dict(_replay(c), answer=a, request=res["loop"][1][:4000]), False)
         # the Spec alone (model and code agree, or the model has no opinion)
         for s in ("readspec", "spec", "meta"):
             if s in res and not res[s][0].startswith("ok") and all(res.get(w, ("same",))[0].startswith("same") for w in ("read", "write")):
